@@ -88,6 +88,7 @@ pub fn make_ctx(variant: u8, rt: Arc<tokio::runtime::Runtime>) -> Option<Ctx> {
         hot_soft: if variant == 1 { 2 } else if variant == 3 { 32 } else { 6 },
         hot_hard: if variant == 1 { 3 } else { 64 },
     };
+    // variant 5: query/worker permits = 2 and a 1 ms cold stage (see below)
     // variant 4: learned + semantic admission with a trained predictor (its own stats / cache_state locks)
     let strategy = if variant == 4 {
         Arc::new(LearnedCacheStrategy::new_with_semantic(4, crate::c04::trained_predictor(4, &[0, 1, 2, 3]), kyrodb_engine::SemanticAdapter::new()))
@@ -96,7 +97,14 @@ pub fn make_ctx(variant: u8, rt: Arc<tokio::runtime::Runtime>) -> Option<Ctx> {
     };
     let shared: Arc<dyn CacheStrategy> = Arc::new(kyrodb_engine::SharedLearnedCacheStrategy::new(strategy.clone()));
     let dir = scratch.sub("data");
-    let engine = TieredEngine::new_with_shared_strategy(shared, Arc::new(QueryHashCache::new(4, 0.9)), vec![], vec![], cfg.tiered_config(Some(dir.as_path()))).ok()?;
+    let mut tcfg = cfg.tiered_config(Some(dir.as_path()));
+    if variant == 5 {
+        // saturation: two query / worker permits and a cold stage that times out at once, so that timed
+        // searches take the load-shedding and partial-result exits
+        tcfg.max_concurrent_queries = 2;
+        tcfg.cold_tier_timeout_ms = 1;
+    }
+    let engine = TieredEngine::new_with_shared_strategy(shared, Arc::new(QueryHashCache::new(4, 0.9)), vec![], vec![], tcfg).ok()?;
     let engine = Arc::new(engine);
     // population: ids 0..6; half drained to the cold tier only, half with a recent-write mirror
     for id in 0..6u64 {
@@ -415,7 +423,7 @@ fn soak(args: &Args, rt: &Arc<tokio::runtime::Runtime>, out: &mut Out) {
             continue;
         }
         let mut rng = Rng::derive(args.seed, round as u64, 0x50A4);
-        let Some(ctx) = make_ctx((round % 5) as u8, rt.clone()) else { continue };
+        let Some(ctx) = make_ctx((round % 6) as u8, rt.clone()) else { continue };
         let ctx = Arc::new(ctx);
         sched::set_jitter(300, rng.next_u64());
         let nthreads = 8;
@@ -428,7 +436,14 @@ fn soak(args: &Args, rt: &Arc<tokio::runtime::Runtime>, out: &mut Out) {
                     // rounds on the semantic-strategy context concentrate on its own operations
                     const SEMANTIC_OPS: [&str; 8] = ["query_semantic", "query_semantic", "query_semantic", "stats_semantic", "stats_semantic", "query", "overwrite", "insert_new"];
                     for k in 0..120 {
-                        let op = if round % 5 == 4 { SEMANTIC_OPS[r.usize_below(SEMANTIC_OPS.len())] } else { OPS[r.usize_below(OPS.len())] };
+                        const SATURATION_OPS: [&str; 8] = ["knn_timed", "knn_timed", "knn_timed", "knn_timed", "knn_timed", "insert_new", "overwrite", "stats"];
+                        let op = if round % 6 == 4 {
+                            SEMANTIC_OPS[r.usize_below(SEMANTIC_OPS.len())]
+                        } else if round % 6 == 5 {
+                            SATURATION_OPS[r.usize_below(SATURATION_OPS.len())]
+                        } else {
+                            OPS[r.usize_below(OPS.len())]
+                        };
                         sched::set_label(op);
                         run_op(&c, op, k);
                     }
